@@ -160,6 +160,11 @@ def reject_shapes(h):
     h.check('QuaternionArray(shape (4,)) rejected', h.true() if raised else h.false())
     raised, _ = h.raises(lambda: QuaternionArray(np.zeros((2, 4))), (ValueError, TypeError))
     h.check('QuaternionArray(zero rows) rejected', h.true() if raised else h.false())
+    for zr in (0, 1):
+        rows = [[x, 1.0 + x * x, x, 2.0], [x, 1.0 + x * x, x, 2.0]]
+        rows[zr] = [0.0, 0.0, 0.0, 0.0]
+        raised, out = h.raises(lambda: QuaternionArray(h.arr(rows)), (ValueError, TypeError))
+        h.check(f'QuaternionArray with a zero row ({zr}) next to a valid row rejected', h.true() if raised else h.false())
     raised, _ = h.raises(lambda: QuaternionArray(h.arr([[x] * 5, [x] * 5])), (ValueError, TypeError))
     h.check('QuaternionArray(shape (2,5)) rejected', h.true() if raised else h.false())
     raised, _ = h.raises(lambda: DCM(h.arr([[x, x], [x, x]])), (ValueError, TypeError))
